@@ -498,10 +498,17 @@ func runC04(c *Ctx) {
 		fn = c.fn("(*neutrino.ChainService).handleAddPeerMsg")
 		psf := func(f string) *types.Var { return c.field("neutrino", "peerState", f) }
 		var regs []start
-		for _, in := range find(fn, anyOf(mapUpdate(loadsField(psf("outboundPeers"))), mapUpdate(loadsField(psf("persistentPeers"))))) {
+		peerMapUpd, peerMapsCovered := mapUpdateOneOf(psf("outboundPeers"), psf("persistentPeers"))
+		nMaps := 0
+		for _, in := range find(fn, peerMapUpd) {
 			regs = append(regs, afterInstr(c, in))
+			nMaps += peerMapsCovered(in)
 		}
-		c.mustFollow(fn, "peer entered into the peer maps", regs, callTo(bmM("NewPeer")), "blockManager.NewPeer(sp)", nil, 2)
+		minRegs := 2
+		if nMaps >= 2 && len(regs) >= 1 {
+			minRegs = 1 // one store into "the one map or the other"
+		}
+		c.mustFollow(fn, "peer entered into the peer maps", regs, callTo(bmM("NewPeer")), "blockManager.NewPeer(sp)", nil, minRegs)
 		if fn.Signature.Results().Len() > 0 {
 			var retTrue []ssa.Instruction
 			for _, in := range find(fn, isExit) {
